@@ -81,6 +81,8 @@ type c08Env struct {
 	sampled  map[string]bool
 	force    string // "inter-pool" / "inter-pool-2": the next txStep opens an inter-pool borrow close to its LTV bound (second form: through the second transit asset); "same-pool": a plain same-pool borrow close to its bound; "emode": a borrow on the e-mode pair close to its bound
 	panicked bool
+	gen1ForceID uint64 // the next gen1Liquidate takes this borrow and moves its collateral price to just above the threshold
+	lastPre  *c08Snap // state before the transaction whose books are being checked (witness only)
 	outage   map[uint64]int // asset id -> steps until its price feed is re-activated (C08's own runs only)
 }
 
@@ -104,10 +106,28 @@ func (e *c08Env) witness(extra map[string]interface{}) map[string]interface{} {
 		"height": e.c.Header.Height, "time": e.c.Header.Time.UTC().Format(time.RFC3339),
 		"prices": e.priceString(), "last_ops": append([]string(nil), e.hist...),
 	}
+	if e.liqRun {
+		var lvs []string
+		for _, lv := range e.c.App.LiquidationKeeper.GetLockedVaults(e.c.Ctx()) {
+			lvs = append(lvs, fmt.Sprintf("locked%d{app=%d borrow=%d in=%s out=%s updated-out=%s complete=%v in-progress=%v}", lv.LockedVaultId, lv.AppId, lv.OriginalVaultId, lv.AmountIn, lv.AmountOut, lv.UpdatedAmountOut, lv.IsAuctionComplete, lv.IsAuctionInProgress))
+		}
+		for _, a := range e.c.App.AuctionKeeper.GetDutchLendAuctions(e.c.Ctx(), e.u.App) {
+			lvs = append(lvs, fmt.Sprintf("auction%d{locked=%d left=%s raised=%s target=%s}", a.AuctionId, a.LockedVaultId, a.OutflowTokenCurrentAmount, a.InflowTokenCurrentAmount, a.InflowTokenTargetAmount))
+		}
+		w["generation1_records"] = strings.Join(lvs, " ")
+	}
 	for k, v := range extra {
 		w[k] = v
 	}
 	return w
+}
+
+func (e *c08Env) beforeString(pk [2]uint64) string {
+	if e.lastPre == nil {
+		return ""
+	}
+	st := e.lastPre.stats[pk]
+	return fmt.Sprintf("total-lend=%s total-borrowed=%s total-stable-borrowed=%s positions: %s", st.TotalLend, st.TotalBorrowed, st.TotalStableBorrowed, e.positionsString(e.lastPre, pk[0], pk[1]))
 }
 
 func (e *c08Env) priceString() string {
@@ -252,7 +272,7 @@ func (e *c08Env) checkBooks(s *c08Snap, after string, causes map[[2]uint64]strin
 			}
 			e.rec.Violate(fmt.Sprintf("C08/books/%s/after-%s", which, where),
 				fmt.Sprintf("pool %d asset %d: published %s = %s but positions give %s (difference %s, previous difference %s)", pk[0], pk[1], which, c08bi(published), derived, d, prev),
-				e.witness(map[string]interface{}{"pool": pk[0], "asset": pk[1], "published": c08bi(published).String(), "derived": derived.String(), "positions": e.positionsString(s, pk[0], pk[1])}))
+				e.witness(map[string]interface{}{"pool": pk[0], "asset": pk[1], "published": c08bi(published).String(), "derived": derived.String(), "positions": e.positionsString(s, pk[0], pk[1]), "before": e.beforeString(pk)}))
 		}
 		cmp("total-lend", st.TotalLend, get(sumLend, k))
 		cmp("total-borrowed", st.TotalBorrowed, get(sumVar, k))
@@ -1088,7 +1108,9 @@ func (e *c08Env) finishTx(pre *c08Snap, op, cls string, res sim.TxResult, desc s
 	post := e.snap()
 	e.rec.Distinct("tx", op, cls, res.OK(), len(post.borrows) > 0, e.variant)
 	after := op
+	e.lastPre = pre
 	e.checkBooks(post, after, nil)
+	e.lastPre = nil
 	if !res.OK() {
 		// a rejected transaction must not have changed positions or totals
 		e.rec.Eval(1)
@@ -1269,7 +1291,13 @@ func c08Setup(t *testing.T, rec *ev.Rec, rnd *rand.Rand, run, variant int, liqRu
 	// variant = universe variant (0..2) + 3 when the FIRST transit asset is the scarce one, so that inter-pool
 	// borrows are routed through the second transit asset as well
 	scarceFirst := (variant/3)%2 == 1
+	// every second variant: the lend app has id 3 as on the production chain (some handlers name that id)
+	lendAppSlot = 1
+	if variant%2 == 0 {
+		lendAppSlot = 3
+	}
 	e.u = lendUniverse(t, c, variant%3)
+	lendAppSlot = 1
 	c.NextBlock(6 * time.Second)
 	// liquidity: the funder (account 5) funds pools and the reserve through real transactions
 	funder := c.Accts[5]
